@@ -730,6 +730,9 @@ def extra(case, rec, th, chems, bp, dp, z, T0, P0, cls, Pb, Tb, Pd, Td, dew_bad,
                 # the subset solver sees the same mixture without the absent members: same value to the solvers' resolution (1e-7 relative as for the scale clause; compositions 1e-6)
                 tolv = (1e-7 * abs(base[0]) + (2e-3 if name.endswith('_T') else 0.0)) if not name.startswith('dew') else (1e-6 * abs(base[0]) + 1e-2 if name.endswith('_T') else 1e-4)
                 if name == 'bubble_point_at_P' and bub_bad.get('solve_Ty'): dsfx2 = '/bubble-unconverged'
+                if name == 'dew_point_at_P' and not dsfx2 and abs(val - base[0]) > tolv and min(val, base[0]) > 480.:
+                    # both are converged dew points above the quantifier's 480 K (near-critical: at 2.5-3 MPa the dew curve of a hydrocarbon mixture has two branches, retrograde region)
+                    rec.hit('stream-level:dew-above-480K-two-branches'); rec.refuse('stream-level dew temperature above the 480 K of the quantifier where two converged dew points exist (near-critical; not judged)'); continue
                 rec.check(abs(val - base[0]) <= tolv and (bool(dsfx2) or np.allclose(full, refc, rtol=0, atol=1e-5)), 'stream-level', f'{name}/{form}/{cls}{dsfx2}',
                           f'Stream.{name}({kw}) with flows {k}*z gives {val!r}, {full.tolist()} but {meth} on the normalised composition gives {base[0]!r}, {refc.tolist()} (ids={ids}, z={zn.tolist()})', residual=abs(val - base[0]) / abs(base[0]))
     except Exception as e:
